@@ -68,12 +68,14 @@ func (g *Gen) opNew(dt string, shape []int) Op {
 		op.Mode = "col"
 	case k < 15:
 		op.Mode = "colraw"
+	case k == 19:
+		op.Mode = "rowspare"
 	case k < 17:
 		op.Mode = "of"
 	default:
 		op.Mode = "row"
 	}
-	if g.r.Intn(7) == 0 && op.Mode != "of" && op.Mode != "colraw" {
+	if g.r.Intn(7) == 0 && op.Mode != "of" && op.Mode != "colraw" && op.Mode != "rowspare" {
 		op.N |= 1
 	}
 	if !g.noFault && g.r.Intn(10) == 0 {
@@ -833,7 +835,22 @@ func (g *Gen) genFamily(fam string) (Op, bool) {
 	case "serialise":
 		a := g.pick(nil)
 		t := w.get(a)
+		// (pb and fb write string elements as raw string headers - addresses; a decoded string tensor dangles
+		// as soon as the source's strings are collected, and reading it crashes: not for string tensors)
+		isStr := t.Dtype() == tensor.String
+		if r.Intn(5) == 0 {
+			if d := g.pickWritable(nil); d >= 0 && w.get(d) != t {
+				f := []string{"gob", "pb", "fb", "npy"}[r.Intn(4)]
+				if isStr && (f == "pb" || f == "fb") {
+					f = "gob"
+				}
+				return Op{Name: "DecodeInto", In: []int{a}, R: d, S: f, Out: -1}, true
+			}
+		}
 		name := []string{"Gob", "Npy", "CSV", "PB", "FB", "Format", "Format"}[r.Intn(7)]
+		if isStr && (name == "PB" || name == "FB") {
+			name = "Gob"
+		}
 		op := Op{Name: name, In: []int{a}, Out: g.newSlot()}
 		if name == "Format" {
 			op.Out = -1
